@@ -459,6 +459,8 @@ class _Timeout(BaseException):
     pass
 
 
+_SKIPPED = "!!not-run"  # (after a query of the same battery did not terminate; never compared)
+_EVER_TIMED_OUT = [0]
 _TIMED_OUT = [0]  # queries of the running battery that hit the limit; afterwards the rest of that battery is not executed
 QUERY_CPU_LIMIT = 20.0  # seconds of CPU time (not wall time: the box may be loaded) for ONE query; the whole battery takes < 1 s
 
@@ -476,11 +478,12 @@ def _ans(fn):
 
     armed = False
     if _TIMED_OUT[0]:
-        return "!!not-run-after-a-query-of-this-battery-did-not-terminate"
+        return _SKIPPED
     if threading.current_thread() is threading.main_thread():
         try:
             signal.signal(signal.SIGVTALRM, _on_vtalrm)
-            signal.setitimer(signal.ITIMER_VIRTUAL, QUERY_CPU_LIMIT)
+            # once a query of this worker process has hit the limit, later batteries get a short fuse (3 s of CPU)
+            signal.setitimer(signal.ITIMER_VIRTUAL, 3.0 if _EVER_TIMED_OUT[0] else QUERY_CPU_LIMIT)
             armed = True
         except (ValueError, OSError):
             armed = False
@@ -488,6 +491,7 @@ def _ans(fn):
         return fn()
     except _Timeout:
         _TIMED_OUT[0] += 1
+        _EVER_TIMED_OUT[0] += 1
         return "!!does-not-terminate"
     except (MemoryError, RecursionError) as e:
         return "!!" + type(e).__name__
@@ -754,6 +758,8 @@ def diff(ref, got):
     out = {}
     for q in ref:
         r, g = ref[q], got[q]
+        if g == _SKIPPED or r == _SKIPPED:
+            continue
         if q[0] == "refs.get_peeled":
             if g is None:
                 continue
@@ -1696,6 +1702,8 @@ PER_OBJECT_FAMILIES = ("getitem", "get_raw", "contains", "parents")
 def _rejection_exc(g):
     """An exception that is not an answer of the query.  MemoryError / RecursionError ('!!') are rejections
     too as far as C14 goes (containment of hostile input is property C04); they get their own outcome class."""
+    if g == "!!does-not-terminate":
+        return False  # a query that spins for ever has not rejected anything
     return _is_exc(g) and g.lstrip("!") not in REJECT_IS_ANSWER
 
 
